@@ -960,7 +960,6 @@ def run(out, ctx):
     if not ctx.get("only_cases"):
         check_initialize(out, random.Random(seed * 7919 + 1414), tier)
     out.tested_not_proved = [
-        "log-det part of KL(whitened) = KL(unwhitened) (needs det multiplicativity); compared numerically",
         "agreement of torch/linear_operator numerics (Cholesky, CG, contour-integral quadrature) with exact algebra",
         "grid-interpolation strategy away from grid nodes (only the exact limit W one-hot is modelled)"]
 
